@@ -1377,8 +1377,8 @@ Qed.
    of the section is an implication. *)
 Definition let_annotations_irrelevant : Prop :=
   forall G ds ds' b b',
-    Forall2 (fun p q : term * term => conv (enter ds G) (snd p) (snd q)) ds ds' ->
-    conv (enter ds G) b b' -> conv G (TLet ds b) (TLet ds' b').
+    Forall2 (fun p q : term * term => conv (enter_o ds G) (snd p) (snd q)) ds ds' ->
+    conv (enter_o ds G) b b' -> conv G (TLet ds b) (TLet ds' b').
 
 Section Full.
 Hypothesis c_let_ann : let_annotations_irrelevant.
@@ -1399,7 +1399,7 @@ Proof.
   - apply c_pi; auto.
   - apply c_app; auto.
   - apply c_let_ann; [|auto].
-    apply (strip_defs_eq_Forall2 (fun x y => conv (enter ds G) x y)).
+    apply (strip_defs_eq_Forall2 (fun x y => conv (enter_o ds G) x y)).
     + eapply Forall_impl; [|exact H]. intros [xa xd] [_ Hxd]. cbn [snd] in *. intros b1 E1. apply Hxd. exact E1.
     + assumption.
   - apply c_neg; auto.
